@@ -6,6 +6,8 @@ ordinary entries of the flattened model list (the hierarchy only contributes the
 correspondence engine through `Context::name()` and the names in Deadlock/Panic reports).
 -/
 import NexoVerif.Lemmas.NetInit
+import NexoVerif.Lemmas.NamesThm
+import NexoVerif.Extracted
 
 namespace NexoVerif.Net
 set_option linter.unusedSimpArgs false
@@ -81,3 +83,58 @@ example : ∃ s, Reach exProg s ∧ s.inits = [0, 1] ∧ s.handled = [(1, 0)] :=
     exact ⟨s1, reach_runLabels exProg _ Reach.init hfin, hc.1, hc.2⟩
 
 end NexoVerif.Net
+
+/-! ## model names in error reports (M-NAMES)
+
+"A sub-model is known as `parent.child` in error reports": identifiers, the table of names and the list of observers, for
+every bench — any number of top-level models, any depth and shape of sub-model hierarchies. -/
+
+namespace NexoVerif.Names
+
+/-- **names_program_shape** — what M-NAMES takes from the source, read on every run: in `simulation::add_model` the observer
+is pushed first, then `build` runs (and adds the sub-models), then the identifier is taken as `model_names.len()` and the
+name pushed right after it, and the future is spawned with that identifier; `add_submodel` is `add_model` under
+`parent.name` on the same tables; the deadlock report lists `observers`' own pairs; panic / no-recipient reports look up
+`model_names[model_id]`. -/
+theorem names_program_shape :
+    Extracted.namesIdTakenWhenNameIsPushed = true ∧ Extracted.namesSubmodelIsQualified = true ∧
+    Extracted.namesTopLevelAsGiven = true ∧ Extracted.namesDeadlockUsesObserverPairs = true ∧
+    Extracted.namesErrorLooksUpById = true := by decide
+
+/-- **every_model_is_reported_under_its_own_qualified_name** — for every bench: every model future is spawned with an
+identifier whose entry in the table of names is that model's own qualified name (`top`, `top.sub`, `top.sub.leaf`, …), no
+two models share an identifier, and the three tables have one entry per model. -/
+theorem every_model_is_reported_under_its_own_qualified_name (bench : List Proto) :
+    let r := addTop false {} bench
+    (∀ q id, (q, id) ∈ r.spawned → r.names[id]? = some q) ∧ (r.spawned.map Prod.snd).Nodup ∧
+    r.spawned.map Prod.fst = r.names ∧ r.spawned.length = r.names.length := by
+  intro r
+  have i : Inv r := addTop_inv {} bench Inv.empty
+  refine ⟨fun q id h => i.lookup h, i.ids_distinct, i.fst, ?_⟩
+  have := congrArg List.length i.fst
+  simpa using this
+
+/-- **observers_parents_first_names_sub_models_first** — adding a model appends the qualified names of its hierarchy to
+the observers in pre-order (the model, then its sub-models) and to the table of names in post-order (its sub-models, then
+the model): the two are different orders of the same names, so only the pairs stored in `observers` itself name the
+mailboxes of a deadlock report correctly. -/
+theorem observers_parents_first_names_sub_models_first (r : Reg) (qual : String) (p : Proto) :
+    (addModel false r qual p).observers = r.observers ++ pre qual p ∧
+    (addModel false r qual p).names = r.names ++ post qual p := addModel_order false r qual p
+
+/-- **the_two_ways_to_misname_a_model** — taking the identifier before `build` gives a model with sub-models the slot of
+its first descendant (`top` is reported as `top.sub`); pairing observers with the table of names position by position
+pairs `top`'s mailbox with the name `top.sub`. -/
+theorem the_two_ways_to_misname_a_model :
+    ((addTop true {} exBench).spawned = [("top.sub", 0), ("top", 0), ("other", 2)] ∧
+     (addTop true {} exBench).names[0]? = some "top.sub") ∧
+    ((addTop false {} exBench).observers = ["top", "top.sub", "other"] ∧
+     (addTop false {} exBench).names = ["top.sub", "top", "other"]) :=
+  ⟨⟨id_taken_before_build_misnames_the_parent.1, id_taken_before_build_misnames_the_parent.2.2⟩,
+    observers_and_names_are_in_different_orders⟩
+
+-- non-vacuity: a three-level hierarchy
+example : (addTop false {} [.node "a" [.node "b" [.node "c" []], .node "" []]]).spawned =
+    [("a.b.c", 0), ("a.b", 1), ("a.<unknown>", 2), ("a", 3)] := by decide
+
+end NexoVerif.Names
